@@ -315,6 +315,23 @@ def run(ctx, col, tier):
     else:
         col.ok("R-DIST", q, d.loc(), "pairwise distances come from coordinate differences", "no product of the positions with themselves", stmt="gram")
 
+    # --- the soma position is not cast to the dtype of the cloud
+    cast = None
+    for n in own_nodes(d):
+        if isinstance(n, ast.Call):
+            dt = kwarg(n, "dtype")
+            srcs = norm_src(n)
+            if dt is not None and norm_src(dt) in ("points.dtype",) and any(isinstance(a, ast.Name) and a.id == "soma" for a in n.args):
+                cast = n
+            if isinstance(n.func, ast.Attribute) and n.func.attr == "astype" and norm_src(n.func.value) == "soma" and n.args and norm_src(n.args[0]) == "points.dtype":
+                cast = n
+    if cast is not None:
+        col.bad("R-ACC", q, d.loc(cast), "the soma keeps its own (floating) position",
+                f"`{norm_src(cast)[:70]}` casts the soma to the dtype of the cloud: for an integer cloud (voxel coordinates) a soma at a fractional position is truncated, "
+                f"the tree is rooted at a point that is not the given soma and every edge length / path length from the root is measured from the wrong place", stmt="soma-cast", definite=True)
+    else:
+        col.ok("R-ACC", q, d.loc(), "the soma keeps its own (floating) position", "no cast of the soma to the cloud's dtype", stmt="soma-cast")
+
     # --- the constructor keeps the caller's options as given (table over the values the statement distinguishes)
     col.rule("R-KEEP", "the constructor stores the branching limit and the root exemption exactly as given: every positive limit k (1 = no branching, 2, 3, ...) "
              "and the 'no limit' value -1 reach the attachment loop unchanged (the stored expression is folded at k = 1, 2, 3, 7, -1 and at both flags)", floor=2, exhaustive=True)
